@@ -90,7 +90,12 @@ def rows_of(h):
                       for n in s_.query(NodeModel).all())
 
 
-def run_store(store, buf):
+def scale_store(n):
+    kinds = sorted(KINDS)
+    return [kinds[(k * 5) % len(kinds)] for k in range(n)]
+
+
+def run_store(store, buf, batches=(1, 1000)):
     traces = [mk(kd, k) for k, kd in enumerate(store)]
     spans = [s for t in traces for s in t]
     bad = []
@@ -120,7 +125,7 @@ def run_store(store, buf):
     if experr:
         stats["error_expected"] = 1
     n = 0
-    for bs in (1, 1000):
+    for bs in batches:
         for oname, order in (("fwd", spans), ("rev", list(reversed(spans)))):
             n += 1
             h = impl_otel.new_holder(batch_size=bs, time_buffer=buf)
@@ -147,9 +152,11 @@ def run_store(store, buf):
                     for t in surv2 for s in t)
                 if rows != exp:
                     bad.append({"bs": bs, "order": oname,
-                                "problem": ["rows", [r[0] for r in rows],
-                                            [r[0] for r in exp],
-                                            [r for r in rows if r not in exp][:2]]})
+                                "problem": ["rows", [r[0] for r in rows][:40],
+                                            [r[0] for r in exp][:40],
+                                            [r for r in rows if r not in exp][:2],
+                                            [r[0] for r in exp
+                                             if r not in rows][:6]]})
                     continue
                 got = pvcanon(h)
                 h2 = impl_otel.new_holder(batch_size=bs, time_buffer=buf)
@@ -163,7 +170,8 @@ def run_store(store, buf):
                     h2.engine.dispose()
                 if ref != got:
                     bad.append({"bs": bs, "order": oname,
-                                "problem": ["frame", sorted(got), sorted(ref)]})
+                                "problem": ["frame", sorted(got)[:40],
+                                            sorted(ref)[:40]]})
             except Exception as e:
                 bad.append({"bs": bs, "order": oname,
                             "problem": ["exception", type(e).__name__,
@@ -177,6 +185,14 @@ def handle(task):
     out = []
     n = 0
     agg = {}
+    for nt, buf in task.get("scale", ()):
+        k, bad, stats = run_store(scale_store(nt), buf, (1000,))
+        n += k
+        for b in bad:
+            b["store"] = ["scale", nt]
+            b["buf"] = buf
+            out.append(b)
+        agg["scale_runs"] = agg.get("scale_runs", 0) + k
     for store, buf in task["cases"]:
         k, bad, stats = run_store(store, buf)
         n += k
@@ -196,8 +212,14 @@ def build(tier, ctx):
              for c in itertools.combinations_with_replacement(sorted(KINDS), r)
              for b in bufs]
     chunk = 8 if tier == "quick" else 32
-    return [{"cases": cases[i:i + chunk]}
-            for i in range(0, len(cases), chunk)]
+    # scale: more traces than the sizes at which SQL statements are usually
+    # chunked; every kind many times over
+    sizes = [(701, 1), (1001, 1), (1301, 0)]
+    if tier == "thorough":
+        sizes += [(1000, 1), (1801, 1), (1301, 2), (2001, 0)]
+    return [{"scale": [sz], "cases": []} for sz in sizes] + \
+        [{"cases": cases[i:i + chunk]}
+         for i in range(0, len(cases), chunk)]
 
 
 def collect(tier, tasks, results, ctx):
@@ -233,8 +255,8 @@ def collect(tier, tasks, results, ctx):
                 "the bound x time_buffer x 2 batch sizes x 2 ingestion "
                 "orders; non-trivial = (store, buffer) pairs in which a "
                 "cleaning step has to remove something",
-        "samples": [{"store": tasks[len(tasks) // 2]["cases"][0][0],
-                     "time_buffer": tasks[len(tasks) // 2]["cases"][0][1],
+        "samples": [{"store": tasks[-1]["cases"][0][0],
+                     "time_buffer": tasks[-1]["cases"][0][1],
                      "kinds": {k: [v[0], v[1], v[2]] for k, v in KINDS.items()}}],
         "exhaustive": True,
         "bounds": {"tier": tier,
@@ -254,6 +276,9 @@ def collect(tier, tasks, results, ctx):
 
 def replay(rec, ctx):
     i = rec["input"]
-    n, bad, _ = run_store(i["store"], i["buf"])
+    if i["store"][:1] == ["scale"]:
+        n, bad, _ = run_store(scale_store(i["store"][1]), i["buf"], (1000,))
+    else:
+        n, bad, _ = run_store(i["store"], i["buf"])
     bad = [b for b in bad if b["bs"] == i["bs"] and b["order"] == i["order"]]
     return bool(bad), repr([b["problem"] for b in bad])[:300]
